@@ -300,6 +300,13 @@ def ob_block_lookup(run, oid):
             continue
         if K.mentions_call(ret, "from_residual"):
             continue        # slot unknown: `?`
+        pr = K.peel(ret)
+        if isinstance(pr, tuple) and pr and pr[0] == "agg" and str(pr[2]) == "None":
+            # slot unknown, spelled `let Some(..) = self.slot_data(slot) else { return None }`: legitimate only when the slot's data is absent
+            unknown = [a for a in atoms if a[0] == "is_some" and a[2] is False and not K.mentions_field(a[1][0], "completed") and not K.mentions_field(a[1][0], "repaired")
+                       and (K.mentions_call(a[1][0], "slot_data") or K.mentions_field(a[1][0], "block_data"))]
+            if unknown and not any(K.mentions_field(x, "completed") or K.mentions_field(x, "repaired") for a in atoms for x in a[1] if isinstance(x, tuple)):
+                continue
         if K.mentions_field(ret, "disseminated") and not K.mentions_field(ret, "repaired"):
             ok = any(a[0] == "eq" and a[2] is True and any(K.mentions_field(x, "completed") for x in a[1]) and any(K.mentions_arg(b, x, 2) for x in a[1]) for a in atoms)
             n_dis += 1
